@@ -176,7 +176,7 @@ class TypeCheckDeserialize:
     def ensures(self, c):
         s, d = c.self, c.data
         exp, fb = c.attr0(s, "expected"), c.attr0(s, "fallback")
-        inst = T.sub(cls(d), exp)
+        inst = T.inst_rt(d, exp)
         out = {"C08: an instance of the passed-through class is accepted as is, anything else goes to the fallback": c.returned == z3.Or(inst, T.acc(fb, d))}
         if c.is_return:
             out["image"] = c.result == z3.If(inst, d, T.img(fb, d))
